@@ -2,8 +2,8 @@
 from vfam import *  # noqa
 from remerkleable.tree import to_gindex, get_depth
 
-THEOREMS = ["C12_default_node", "C12_default_is_constructed", "C12_default_encoding", "C12_container_navigable", "C12_vector_navigable", "C12_zero_wellformed", "C12_equals_explicit"]
-PARTIAL = ["the default backing is proved to be the constructor's backing of the zero value for every type (same tree), with the zero value's encoding and root, and container fields / composite vector elements are navigable; omitted container fields in a constructor call (mk_container_partial) and packed / bitfield chunk navigation are covered by the correspondence (navigable, default_encoding, omitted-fields observables)"]
+THEOREMS = ["C12_default_node", "C12_default_is_constructed", "C12_default_encoding", "C12_container_navigable", "C12_vector_navigable", "C12_zero_wellformed", "C12_equals_explicit", "C12_omitted_fields", "C12_chunks_navigable"]
+PARTIAL = ["the model theorems cover the whole statement: the default backing is the constructor's backing of the zero value for every type (same tree, same encoding and root), container fields / composite vector elements / data chunks of bit-, byte- and packed vectors are navigable (C12_container_navigable, C12_vector_navigable, C12_chunks_navigable), omitted constructor fields take the zero value (C12_omitted_fields); the Python classmethods (default, default_node, Type()) are tied by the correspondence"]
 COQ_IMPORTS = ["RM.Types", "RMR.RunV"]
 COQ_FN = "RunV.run_c12"
 COQ_CASE_TY = "(ty * list N)"
